@@ -1092,7 +1092,10 @@ func c03GarbageRaw(r *vkit.Rand, n int, heavy bool) []byte {
 			g = append(g, c03Header(vkit.Pick(r, lengths), r.Uint32(), byte(r.Intn(3)))...)
 		case 3: // header followed by something that looks like a command, wrong checksum
 			p := []byte(persistence.FormatCommand("SET", []byte(fmt.Sprintf("forged%d", r.Intn(1000))), []byte("forged")))
-			crc := crc32.ChecksumIEEE(p) ^ (1 << uint(r.Intn(32)))
+			// wrong in one bit of EACH checksum byte: a damage of one bit / one byte / one short
+			// range of the test cannot turn it into the valid checksum (a single wrong bit could be
+			// flipped back by a bit-flip damage, which would make the harness append a frame itself)
+			crc := crc32.ChecksumIEEE(p) ^ (0x01010101 << uint(r.Intn(8)))
 			g = append(g, c03Header(uint32(len(p)), crc, 1)...)
 			g = append(g, p...)
 		case 4: // checksum-valid frame around a payload that is not a command
